@@ -371,7 +371,12 @@ func runC05(t *testing.T, seed uint64, planJSON []byte, tier string) (res *Resul
 			for k, a := range regQ {
 				switch a {
 				case "fail":
-					tc.Rules = append(tc.Rules, simtc.Rule{Code: simtc.TBranchRegister, Nth: regBase + k + 1, Action: simtc.ActFail})
+					act := simtc.ActFail
+					if (ei+k)%2 == 1 {
+						// every other refusal carries no exception code
+						act = simtc.ActFailNoCode
+					}
+					tc.Rules = append(tc.Rules, simtc.Rule{Code: simtc.TBranchRegister, Nth: regBase + k + 1, Action: act})
 				case "silent":
 					tc.Rules = append(tc.Rules, simtc.Rule{Code: simtc.TBranchRegister, Nth: regBase + k + 1, Action: simtc.ActSilent})
 				}
